@@ -6,7 +6,7 @@ import connlib
 import vlib
 from cmdlib import tok
 
-ALPHA = b"ab*?.+(|$"
+ALPHA = b"ab*?.+(|$\xff"
 
 
 def raw(b):
@@ -94,7 +94,7 @@ def run(ctx):
     return ctx.finish("model_checking", {
         "states": mc.distinct, "transitions": mc.generated,
         "traces_validated_against_impl": len(scs) + len(scs2), "evaluations": pairs, "distinct_nontrivial": nontrivial,
-        "rule": "every pattern up to the tier's length over {a b * ? . + ( | $} against EVERY key up to length 3 over the same alphabet "
+        "rule": "every pattern up to the tier's length over {a b * ? . + ( | $ and the byte 0xff, which is not valid UTF-8} against EVERY key up to length 3 over the same alphabet "
                 "(complete), plus seeded random patterns up to length 12 over the characters the property names with keys derived from them; "
                 "glob.Compile(p).MatchString(k) is recorded per pattern and TLC recomputes the match set with Glob!Match (which MC_C17 shows "
                 "equal to an independent NFA formulation). KEYS p, SCAN 0 MATCH p COUNT 1000 and full SCAN cursor iterations with COUNT 1, 2, 3, n, 1000 and the default run "
